@@ -830,3 +830,155 @@ Proof.
   intros fuel t0 tock0 rs os runs outs Hr Ho Hruns E. unfold aplay in E.
   refine (asession_runs _ _ _ _ _ _ Hruns E). split; assumption.
 Qed.
+
+(* ================================================================== on time: lateness is never carried over *)
+
+Definition quiet (w : zworld) : Prop := reads w = [] /\ overs w = [].
+
+Lemma read_quiet : forall w : zworld, quiet w ->
+  exists w', read w = (now w, w') /\ now w' = now w /\ quiet w'.
+Proof.
+  intros w [R O]. unfold read. rewrite R. eexists. split; [reflexivity|]. cbn. split; [reflexivity|].
+  split; cbn; auto.
+Qed.
+
+Lemma sleep_quiet : forall (w : zworld) d, quiet w -> now (sleep w d) = now w + d /\ quiet (sleep w d).
+Proof.
+  intros w d [R O]. unfold sleep. rewrite O. cbn. tz. split; [reflexivity|]. split; cbn; auto.
+Qed.
+
+Lemma latest_quiet : forall (tm : ztimer) w, quiet w -> t_last tm <= now w ->
+  exists tm' w', latest tm w = (tm', now w, w') /\ now w' = now w /\ quiet w' /\
+    t_stop tm' = t_stop tm /\ t_start tm' = t_start tm /\ t_last tm' = now w.
+Proof.
+  intros tm w Q L. destruct (read_quiet w Q) as [w' [R [N Q']]].
+  unfold latest. rewrite R. tz. destruct (now w - t_last tm <? 0) eqn:D; [lia|].
+  eexists _, w'. split; [f_equal; f_equal; lia|]. cbn. rsplit; try assumption; try reflexivity; lia.
+Qed.
+
+Lemma wait_quiet : forall fuel (tm : ztimer) w acc tm' w' sl,
+  quiet w -> t_last tm <= now w ->
+  wait (S (S fuel)) tm w acc = Some (tm', w', sl) ->
+  now w' = Z.max (t_stop tm) (now w) /\ quiet w' /\
+  t_stop tm' = t_stop tm /\ t_start tm' = t_start tm /\ t_last tm' = now w'.
+Proof.
+  intros fuel tm w acc tm' w' sl Q L E.
+  cbn [wait] in E. unfold expired in E.
+  destruct (latest_quiet tm w Q L) as [tm1 [w1 [L1 [N1 [Q1 [S1 [A1 La1]]]]]]]. rewrite L1 in E. tz.
+  destruct (t_stop tm1 <=? now w) eqn:X.
+  - inversion E; subst. rsplit; try assumption; lia.
+  - unfold remaining in E.
+    destruct (latest_quiet tm1 w1 Q1 ltac:(lia)) as [tm2 [w2 [L2 [N2 [Q2 [S2 [A2 La2]]]]]]]. rewrite L2 in E. tz.
+    assert (Hm : max0 (t_stop tm1 - now w1) = t_stop tm1 - now w1).
+    { unfold max0. tz. destruct (0 <? t_stop tm1 - now w1) eqn:Y; lia. }
+    rewrite Hm in E.
+    destruct (sleep_quiet w2 (t_stop tm1 - now w1) Q2) as [N3 Q3].
+    set (w3 := sleep w2 (t_stop tm1 - now w1)) in *.
+    destruct (latest_quiet tm2 w3 Q3 ltac:(lia)) as [tm4 [w4 [L4 [N4 [Q4 [S4 [A4 La4]]]]]]]. rewrite L4 in E.
+    destruct (t_stop tm4 <=? now w3) eqn:Y; [|lia].
+    inversion E; subst. rsplit; try assumption; lia.
+Qed.
+
+Lemma cycles_on_time : forall works fuel (tm : ztimer) w d cs tmf wf,
+  quiet w -> t_last tm <= now w -> t_stop tm - t_start tm = d ->
+  Forall step_ok works -> no_retro works ->
+  cycles (S (S fuel)) tm w works = Some (cs, tmf, wf) ->
+  map (fun c => (c_now c, c_stop c)) cs = ideal (now w) (t_stop tm) d works.
+Proof.
+  induction works as [|[p j] rest IH]; intros fuel tm w d cs tmf wf Q L Hd Hs Hn E.
+  - cbn in E. inversion E; subst. reflexivity.
+  - cbn [cycles] in E. inversion Hs as [|? ? [Hp _] Hrest]; subst. inversion Hn as [|? ? Hj Hnrest]; subst.
+    cbn [fst snd] in *. subst j.
+    destruct (wait (S (S fuel)) tm (advance w (p, 0)) []) as [[[tm1 w1] sl]|] eqn:W; [|discriminate].
+    destruct (cycles (S (S fuel)) (restart tm1) w1 rest) as [[[cs' tmf'] wf']|] eqn:C; [|discriminate].
+    inversion E; subst. clear E.
+    assert (Qa : quiet (advance w (p, 0))) by exact Q.
+    assert (Na : now (advance w (p, 0)) = now w + p) by (unfold advance; cbn; tz; lia).
+    assert (La : t_last tm <= now (advance w (p, 0))) by lia.
+    destruct (wait_quiet _ _ _ _ _ _ _ Qa La W) as [N1 [Q1 [S1 [A1 La1]]]].
+    cbn [map ideal c_now c_stop fst]. f_equal.
+    rewrite (IH fuel (restart tm1) w1 (t_stop tm - t_start tm) cs' tmf wf Q1).
+    + unfold restart, start_at. cbn [t_stop]. tz. rewrite N1, Na, S1. f_equal; lia.
+    + unfold restart, start_at. cbn [t_last]. lia.
+    + rewrite restart_duration. lia.
+    + assumption.
+    + assumption.
+    + assumption.
+Qed.
+
+Theorem do_real_on_time : forall fuel tock (tm : ztimer) (w : zworld) works out tmf wf,
+  quiet w -> Forall step_ok works -> no_retro works ->
+  do_real VSync (S (S fuel)) tock tm w works = Some (out, tmf, wf) ->
+  map (fun c => (c_now c, c_stop c)) (r_cycles out) = ideal (r_now out) (r_now out + tock) tock works.
+Proof.
+  intros fuel tock tm w works out tmf wf Q Hs Hn E. unfold do_real in E.
+  destruct (start_run VSync tock tm w) as [tm0 w0] eqn:St.
+  destruct (start_sync_spec _ _ _ _ _ St) as [r [R [A [B C]]]].
+  destruct (read_quiet w Q) as [w0' [R' [N0 Q0]]]. rewrite R' in R. inversion R; subst r w0'. clear R.
+  destruct (cycles (S (S fuel)) tm0 (clear_log w0) works) as [[[cs tmf'] wf']|] eqn:Cy; [|discriminate].
+  inversion E; subst out tmf' wf'. clear E. cbn [r_cycles r_now].
+  assert (Qc : quiet (clear_log w0)) by exact Q0.
+  assert (Nc : now (clear_log w0) = now w0) by reflexivity.
+  rewrite (cycles_on_time works fuel tm0 (clear_log w0) tock cs tmf wf Qc ltac:(lia) ltac:(lia) Hs Hn Cy).
+  rewrite Nc. f_equal. lia.
+Qed.
+
+(* the same for ado() *)
+Lemma await_quiet : forall fuel (tm : zatimer) w acc w' sl,
+  quiet w -> await (S (S fuel)) tm w acc = Some (w', sl) ->
+  now w' = Z.max (a_stop tm) (now w) /\ quiet w'.
+Proof.
+  intros fuel tm w acc w' sl Q E. cbn [await] in E.
+  destruct (read_quiet w Q) as [w1 [R1 [N1 Q1]]]. rewrite R1 in E. tz.
+  destruct (a_stop tm <=? now w) eqn:X.
+  - inversion E; subst. split; [lia|assumption].
+  - destruct (read_quiet w1 Q1) as [w2 [R2 [N2 Q2]]]. rewrite R2 in E.
+    assert (Hm : max0 (a_stop tm - now w1) = a_stop tm - now w1).
+    { unfold max0. tz. destruct (0 <? a_stop tm - now w1) eqn:Y; lia. }
+    rewrite Hm in E.
+    destruct (sleep_quiet w2 (a_stop tm - now w1) Q2) as [N3 Q3].
+    set (w3 := sleep w2 (a_stop tm - now w1)) in *.
+    destruct (read_quiet w3 Q3) as [w4 [R4 [N4 Q4]]]. rewrite R4 in E.
+    destruct (a_stop tm <=? now w3) eqn:Y; [|lia].
+    inversion E; subst. split; [lia|assumption].
+Qed.
+
+Lemma acycles_on_time : forall works fuel (tm : zatimer) w d cs tmf wf,
+  quiet w -> a_stop tm - a_start tm = d ->
+  Forall step_ok works -> no_retro works ->
+  acycles (S (S fuel)) tm w works = Some (cs, tmf, wf) ->
+  map (fun c => (c_now c, c_stop c)) cs = ideal (now w) (a_stop tm) d works.
+Proof.
+  induction works as [|[p j] rest IH]; intros fuel tm w d cs tmf wf Q Hd Hs Hn E.
+  - cbn in E. inversion E; subst. reflexivity.
+  - cbn [acycles] in E. inversion Hs as [|? ? [Hp _] Hrest]; subst. inversion Hn as [|? ? Hj Hnrest]; subst.
+    cbn [fst snd] in *. subst j.
+    destruct (await (S (S fuel)) tm (advance w (p, 0)) []) as [[w1 sl]|] eqn:W; [|discriminate].
+    destruct (acycles (S (S fuel)) (atimer_restart tm) w1 rest) as [[[cs' tmf'] wf']|] eqn:C; [|discriminate].
+    inversion E; subst. clear E.
+    assert (Qa : quiet (advance w (p, 0))) by exact Q.
+    assert (Na : now (advance w (p, 0)) = now w + p) by (unfold advance; cbn; tz; lia).
+    destruct (await_quiet _ _ _ _ _ _ Qa W) as [N1 Q1].
+    destruct (atimer_restart_fields tm) as [Hdr Hst].
+    cbn [map ideal c_now c_stop fst]. f_equal.
+    rewrite (IH fuel (atimer_restart tm) w1 (a_stop tm - a_start tm) cs' tmf wf Q1 Hdr Hrest Hnrest C).
+    rewrite N1, Na, Hst. f_equal; lia.
+Qed.
+
+Theorem ado_real_on_time : forall fuel tock (w : zworld) works out wf,
+  quiet w -> Forall step_ok works -> no_retro works ->
+  ado_real (S (S fuel)) tock w works = Some (out, wf) ->
+  map (fun c => (c_now c, c_stop c)) (r_cycles out) = ideal (r_now out) (r_now out + tock) tock works.
+Proof.
+  intros fuel tock w works out wf Q Hs Hn E. unfold ado_real in E.
+  destruct (atimer_init tock w) as [tm0 w0] eqn:I. destruct (atimer_start tm0 w0) as [tm1 w1] eqn:St.
+  destruct (ado_start_spec _ _ _ _ _ _ I St) as [r0 [r1 [R0 [R1 [A B]]]]].
+  destruct (read_quiet w Q) as [w0' [R0' [N0 Q0]]]. rewrite R0' in R0. inversion R0; subst r0 w0'. clear R0.
+  destruct (read_quiet w0 Q0) as [w1' [R1' [N1 Q1]]]. rewrite R1' in R1. inversion R1; subst r1 w1'. clear R1.
+  destruct (acycles (S (S fuel)) tm1 (clear_log w1) works) as [[[cs tmf] wf']|] eqn:Cy; [|discriminate].
+  inversion E; subst out wf'. clear E. cbn [r_cycles r_now].
+  assert (Qc : quiet (clear_log w1)) by exact Q1.
+  assert (Nc : now (clear_log w1) = now w1) by reflexivity.
+  rewrite (acycles_on_time works fuel tm1 (clear_log w1) tock cs tmf wf Qc ltac:(lia) Hs Hn Cy).
+  rewrite Nc. f_equal. lia.
+Qed.
